@@ -40,6 +40,9 @@ class Ctx:
         self.prop, self.tier, self.seed = prop, tier, seed
         base = os.environ.get("VERIF_SCRATCH", tempfile.gettempdir())
         self.scratch = tempfile.mkdtemp(prefix="verif-%s-" % prop, dir=base)
+        # everything the drivers and tools create as temporary files lives under the scratch directory and goes with it
+        os.makedirs(os.path.join(self.scratch, "tmp"), exist_ok=True)
+        os.environ["TMPDIR"] = os.path.join(self.scratch, "tmp")
         self.t0 = time.time()
         self.rng = random.Random(seed)
         self._subs = {}
@@ -136,7 +139,9 @@ class Ctx:
         with open(os.path.join(d, module + ".cfg"), "w") as f:
             f.write(cfg_text)
         w = str(workers or NCPU)
-        java = ["java", "-XX:+UseParallelGC", "-Xss64m"]
+        jtmp = self.path("jtmp", "x")[:-2]       # TLC unpacks its standard modules into java.io.tmpdir and leaves them there
+        os.makedirs(jtmp, exist_ok=True)
+        java = ["java", "-XX:+UseParallelGC", "-Xss64m", "-Djava.io.tmpdir=" + jtmp]
         if heap:
             java.append("-Xmx" + heap)
         if deque:
